@@ -24,6 +24,7 @@ func init() {
 		ID: "C09", Level: "exploration",
 		Rule: "case kinds: i mod 5 == 0 → one stress round: 12 client loops spawn real csvq processes (increment transactions in three forms, transactions ending in ROLLBACK, readers checking an in-row invariant, writers with a 50 ms wait-timeout) against one table, with delays injected at hook points inside the lock protocol; monitors over the merged hook trace and the process results: (1) no two recorded hold intervals overlap unless both are shared, (2) conservation: final counter = number of committed increments, (3) exactly-once: the log table holds exactly the ids of committed transactions, (4) a lock timeout changes nothing, (5) porcupine linearizability of the increment/read history. " +
 			"otherwise → systematic schedules: 2..3 real processes (writer/writer, writer/reader, reader/writer, FOR UPDATE, ROLLBACK, 3 roles) run under a step controller that serialises every hook point of lock acquisition, load, commit and release through FIFOs; schedules are enumerated as bit strings over the first 14 decision points (two roles) or explored with bounded random preemption (three roles); after every step the believed-holder set must be compatible, at the end counter = committed writers, readers saw n = m, no control file remains. " +
+			"Each stress case is followed by racing creators (two processes create and fill the same table, each held up at one step of its acquisition or before its commit, 49 pairs of hold points: at most one succeeds, the winner's table exists afterwards with exactly its row, otherwise no table; no control file) and, every third time, by a probe of single statements whose WITH clause reads their own target. " +
 			"non-trivial = a stress round with >= 100 completed transactions, or a schedule in which both roles reached the lock protocol while the other was inside it (>= 2 context switches); distinct = round digest / schedule signature (sequence of (role,point)).",
 		Quick: 120, Thorough: 2400, FloorQuick: 600, FloorThorough: 7000, Workers: 16,
 		CaseTimeout: 15 * time.Minute,
